@@ -14,9 +14,11 @@ def run(tier, seed):
                  ["commonmark"], "all strings of <= k pieces over {space, a, LF, NBSP, TAB, EM SPACE, 'x y', VT}; distinct = distinct (prefix, length)", "code span interiors")
     from .c17 import add_list
     add_list(rep, "C08")
+    deductive(rep, "C08", ["markdown_it.rules_inline.backticks.backtick"], "contracts.inline2")
     rep.explanation = ("Mixed. Deductive: markup == the scanned marker run with its count (hr, heading, fence, lheading), info == src slice, content == getLines of exactly the token's "
                        "lines with the right indent (fence, code, html_block). list_block: an item's info is the slice from the item's own line start to its marker (GUARD at the store), markup is the marker character; the marker scanners return positions "
-                       "after ASCII digits + delimiter / a bullet character. Bounded: getLines' own contract (suffix-of-source-line), list/blockquote markup and the code span rule.")
+                       "after ASCII digits + delimiter / a bullet character. Bounded: getLines' own contract (suffix-of-source-line), list/blockquote markup. The code span rule (backticks.backtick) is verified for every source string: markup is the opening backtick string, the closing string has the same length, and the content is exactly the text between them with line endings as spaces and one padding space removed from each side iff both are present and some character is not U+0020/LF (str.replace, startswith/endswith, strip(' ') and str.index are modelled exactly for one-character arguments; the no-argument strip() is modelled with this interpreter's whitespace table, so a change to it is refuted).")
     rep.trusted_base += STD_TRUST
-    rep.assumptions += ["StateBlock.getLines is under an assumed contract in the deductive part (its effect is monitored by the bounded content oracle)"]
+    rep.assumptions += ["StateBlock.getLines: safety proved; the content of its result is summarised by an uninterpreted string function (its effect is monitored by the bounded content oracle)",
+                        "str.index / str.replace / str.strip / startswith / endswith: modelled from their documented semantics for one-character arguments (trusted model of the built-ins)"]
     return rep
